@@ -15,6 +15,16 @@ B1  the complete state graph at a smaller scope is dumped; a transition cover pl
 B2  EVERY recorded execution (conforming or not) is validated by TLC against the property monitor
     specs/Trace_CommandOutput.tla (laws L1-L4, knows nothing of the mechanism).  Verdict: P rejects
     => VIOLATION; differs from M but P accepts => MODEL-DRIFT note.
+
+The same three bindings are applied to the supply-lane path: specs/SupplyUplink.tla (M: `Uplinks` for
+one remote - supply branch of replace_and_pop re-queuing itself while has_data(), SupplyBackpressure
+FIFO, special queue, a value lane sharing the queue and the single writer; P: InOrderOnce,
+NoSkipWithinEpoch, NothingLost, QuiescentComplete, Drains), harness `cmdoutput supply` (real Uplinks,
+real WriteTask futures into a real byte channel, RawResponseMessageDecoder), monitor
+specs/Trace_SupplyUplink.tla.
+
+Entry points: run_k(tier, out, wd) -> stats (adds states / transitions / traces_validated_against_impl to
+`out`, details under out.cov["k_cmdoutput"], out.cov["k_supply"]); replay_k(replay_obj, wd, prop, path).
 """
 import json, os, random
 from vlib import core
